@@ -41,6 +41,19 @@ def _plan(draw, max_rows):
             cols.append({"name": nm[j], "kind": kind,
                          "vals": [gen.NA_VALUE[kind]] * lead + [base[i % len(base)] for i in range(n - lead)]})
         return {"frame": {"n": n, "cols": cols}}
+    if draw(st.integers(0, 24)) == 0:
+        # the mirror image: more than a thousand leading cells of one type without a missing value, then missing cells
+        # (and other values) further down - whatever is decided from the head of a column is out of date there
+        n = draw(st.sampled_from([1001, 1002, 1200, 2100]))
+        lead = draw(st.sampled_from([1000, 1001, n - 1]))
+        nm = [x if x else "blank" for x in draw(gen.names(k))]
+        cols = []
+        for j in range(k):
+            kind = draw(st.sampled_from(["s", "s", "b", "f", "d", "ob", "t", "i"]))
+            base = [v for v in gen.TIGHT[kind] if not build.plan_isna(kind, v)]
+            tail = [gen.NA_VALUE.get(kind, base[0]) if i % 2 == 0 else base[i % len(base)] for i in range(n - lead)]
+            cols.append({"name": nm[j], "kind": kind, "vals": [base[0]] * lead + tail})
+        return {"frame": {"n": n, "cols": cols}}
     nm = draw(gen.names(k))
     nm = [x if x else "blank" for x in nm]
     cols = []
@@ -175,6 +188,13 @@ def _roundtrips(data, fp, ctx, phase=""):
     dtypes = {cn: ("datetime64[D]" if kinds[cn] == "d" else "datetime64[us]") for cn in names if kinds[cn] in ("d", "t")}
     back = ctx.call("from_json", lambda: di.DataFrame.from_json(text, dtypes=dtypes))
     _compare_back("JSON", back, src, kinds, has_value)
+    # the documented dtypes= argument naming every column whose dtype is one of the standard ones
+    full = dict(dtypes)
+    full.update({cn: {"s": str, "b": bool, "f": float, "i": int}[kinds[cn]] for cn in names if kinds[cn] in ("s", "b", "f", "i")})
+    if len(full) > len(dtypes):
+        back = ctx.call("from_json(dtypes=all)", lambda: di.DataFrame.from_json(text, dtypes=full))
+        _compare_back("JSON with dtypes for every column", back, src, kinds, has_value)
+        ctx.cls("from_json_with_dtypes_for_every_column")
 
     # ---- pandas ----
     pdf = ctx.call("to_pandas", data.to_pandas)
